@@ -76,6 +76,11 @@ class ShorterResultsPlugin(Plugin):
     def generate_result_types_module(
         self, module: ast.Module, operation_definition: ExecutableDefinitionNode
     ) -> ast.Module:
+        self._store_imported_types(module)
+
+        return super().generate_result_types_module(module, operation_definition)
+
+    def _store_imported_types(self, module: ast.Module) -> None:
         for stmt in module.body:
             if not isinstance(stmt, ast.ImportFrom):
                 continue
@@ -89,8 +94,6 @@ class ShorterResultsPlugin(Plugin):
                     self.imported_types[name.asname] = from_
                 else:
                     self.imported_types[name.name] = from_
-
-        return super().generate_result_types_module(module, operation_definition)
 
     def generate_result_class(
         self,
@@ -116,6 +119,10 @@ class ShorterResultsPlugin(Plugin):
             .get("ariadne-codegen", {})
             .get("fragments_module_name", "fragments")
         )
+
+        # types used by fields of fragments (enums, custom scalars) can become
+        # return types too, when an operation consists of one fragment only
+        self._store_imported_types(module)
 
         for fragment_class in [
             x.name for x in module.body if isinstance(x, ast.ClassDef)
